@@ -187,7 +187,9 @@ def sort_facility_list(
     return facility_list
 
 
-def sort_task_list(task_list, priority_rule_mode=TaskPriorityRuleMode.TSLACK):
+def sort_task_list(
+    task_list, priority_rule_mode=TaskPriorityRuleMode.TSLACK, absence_time_list=None
+):
     """
     Sort task_list as priority_rule_mode.
 
@@ -197,9 +199,14 @@ def sort_task_list(task_list, priority_rule_mode=TaskPriorityRuleMode.TSLACK):
         priority_rule_mode (ResourcePriorityRuleMode, optional):
             Mode of priority rule for sorting.
             Defaults to TaskPriorityRuleMode.TSLACK
+        absence_time_list (List[int], optional):
+            Project-wide absence steps. READY entries recorded at these steps are not
+            counted as waiting time by the FIFO rule.
+            Defaults to None -> [].
     Returns:
         List[BaseTask]: task_list after sorted
     """
+    absence_time_set = set(absence_time_list) if absence_time_list is not None else set()
     # Task: TSLACK (a task which Slack time(LS-ES) is lower has high priority)
     if priority_rule_mode == TaskPriorityRuleMode.TSLACK:
         task_list = sorted(task_list, key=lambda task: task.lst - task.est)
@@ -221,7 +228,13 @@ def sort_task_list(task_list, priority_rule_mode=TaskPriorityRuleMode.TSLACK):
         # Task: FIFO (First In First Out rule)
         def count_ready(x):
             k = x.state_record_list
-            num = len([i for i in range(len(k)) if k[i].name == "READY"])
+            num = len(
+                [
+                    i
+                    for i in range(len(k))
+                    if k[i].name == "READY" and i not in absence_time_set
+                ]
+            )
             return num
 
         task_list = sorted(task_list, key=lambda task: count_ready(task), reverse=True)
